@@ -727,7 +727,9 @@ def t3_tables(prog, rep):
         raise cdb.AnalysisBroken("anchor missing: skip_ws")
     P = ("v", f.params[0]["name"], f.params[0]["id"])
     terms = (("[]", P, ("c", 0)), ("*", P))
-    tests = [b for b in f.blocks.values() if b.cond is not None and len(b.succs) == 2 and any(decide_with(b.cond, t, 0) is not None for t in terms)]
+    tests = [b for b in f.blocks.values() if b.cond is not None and (
+        (b.term_cls == "SwitchStmt" and norm(b.cond) in terms) or
+        (b.term_cls != "SwitchStmt" and len(b.succs) == 2 and any(decide_with(b.cond, t, 0) is not None for t in terms)))]
     order = {bid: i for i, bid in enumerate(f.rpo())}
     tests.sort(key=lambda b: order.get(b.id, 1 << 30))
     if not tests:
@@ -745,6 +747,20 @@ def t3_tables(prog, rep):
                 if any(e.cls == "ReturnStmt" for e in blk.elems) or not blk.succs:
                     out = "stop"
                     break
+                if blk.cond is not None and blk.term_cls == "SwitchStmt" and norm(blk.cond) in terms:
+                    nxt = None
+                    kinds = edge_kinds(blk)
+                    for (cnd, kind), sx in zip(kinds, blk.succs):
+                        if isinstance(kind, tuple) and kind[0] == "case" and k in f.blocks[sx].case_values():
+                            nxt = sx
+                    if nxt is None:
+                        for (cnd, kind), sx in zip(kinds, blk.succs):
+                            if isinstance(kind, tuple) and kind[0] == "default":
+                                nxt = sx
+                    cur = nxt
+                    if cur is None:
+                        out = "stop"
+                    continue
                 if blk.cond is not None and len(blk.succs) == 2:
                     d = None
                     for t in terms:
